@@ -38,7 +38,7 @@ func handlerState(p *drv.Party) string {
 		switch {
 		case r != nil:
 			st = "finished with a result"
-		case err != nil && err.Error() == "protocol: not finished":
+		case drv.IsNotFinished(err):
 			st = "running"
 		default:
 			st = "already aborted: " + err.Error()
@@ -214,7 +214,7 @@ func partyState(p *drv.Party) string {
 	switch {
 	case r != nil:
 		return fmt.Sprintf("finished (%T)", r)
-	case err != nil && err.Error() == "protocol: not finished":
+	case drv.IsNotFinished(err):
 		return "still running with an empty network (stuck)"
 	default:
 		return "aborted: " + err.Error()
